@@ -117,8 +117,14 @@ func TestHarness(t *testing.T) {
 		if err := json.Unmarshal(job.Cases, &cases); err != nil {
 			t.Fatal(err)
 		}
-		for _, c := range cases {
+		for i, c := range cases {
+			if i < job.Params["offset"] {
+				continue
+			}
+			emit(map[string]any{"index": i})
+			stop := epWatchdog(i)
 			emit(RunEp(t, c.Calls, FixedEpChooser(c.Choices), true))
+			stop()
 		}
 	case "ep-random":
 		for i := job.Params["offset"]; i < job.N; i++ {
@@ -129,7 +135,9 @@ func TestHarness(t *testing.T) {
 				fr = 0 // a third of the workloads is fault free
 			}
 			emit(map[string]any{"index": i})
+			stop := epWatchdog(i)
 			emit(RunEp(t, calls, RandomEpChooser(ri, calls, job.Params["maxsteps"], fr), true))
+			stop()
 		}
 	case "resolve":
 		for _, mc := range RunMutatingGraph() {
@@ -274,6 +282,12 @@ func TestHarness(t *testing.T) {
 					emit(guard("linkend", "json-raw", seed, func() SysRecord { return FamHealthyStaysUp(seed) }))
 				} else if k < 8 {
 					emit(guard("linkend", "json-raw", seed, func() SysRecord { return FamEndWhileClosureRuns(seed, k-6) }))
+				} else if k < 10 {
+					emit(guard("linkend", "json-raw", seed, func() SysRecord { return FamNilCtx(seed, k == 9) }))
+				} else if k < 12 {
+					emit(guard("linkend", "json-raw", seed, func() SysRecord { return FamMassEnd(seed, k == 11) }))
+				} else if k < 15 {
+					emit(guard("linkend", "json-raw", seed, func() SysRecord { return FamLinkEndMore(seed, k-12) }))
 				}
 			}
 			if has("relay") {
@@ -290,6 +304,9 @@ func TestHarness(t *testing.T) {
 			}
 			if has("relay") && cfg == 0 {
 				emit(guard("relay", "json-raw", seed, func() SysRecord { return FamRelayClosure(seed) }))
+			}
+			if has("relay") && cfg == 1 {
+				emit(guard("relay", "json-raw", seed, func() SysRecord { return FamRelayBack(jsonRawCodec(), seed) }))
 			}
 			if has("nestedlink") {
 				switch cfg {
@@ -320,8 +337,10 @@ func TestHarness(t *testing.T) {
 			}
 			if has("earlycancel") {
 				emit(guard("earlycancel", "json-raw", seed, func() SysRecord { return FamEarlyCancel(seed, i) }))
-				if i-job.Params["offset"] < 2 {
+				if k := i - job.Params["offset"]; k < 2 {
 					emit(guard("earlycancel", "json-raw", seed, func() SysRecord { return FamEnumPanic(seed) }))
+					emit(guard("earlycancel", "json-raw", seed, func() SysRecord { return FamDeadlineEnd(seed, k == 1) }))
+					emit(guard("earlycancel", "json-raw", seed, func() SysRecord { return FamLinkHooksOnly(seed, k) }))
 				}
 			}
 			if has("enumrace") {
@@ -354,6 +373,10 @@ func TestHarness(t *testing.T) {
 					emit(runFam(f, cborRawCodec(), stream, chunk, seed, np))
 				default:
 					emit(runFam(f, cborBytesCodec(), stream, chunk, seed, np))
+				}
+				// a payload type whose POINTER has its own JSON encoding (as generated marshalers do)
+				if i%5 == 4 && (f == "values" || f == "errors" || f == "closures") {
+					emit(runFam(f, jsonPtrRawCodec(), stream, chunk, seed, np))
 				}
 			}
 		}
@@ -403,6 +426,22 @@ func TestHarness(t *testing.T) {
 	default:
 		t.Fatalf("unknown family %q", job.Family)
 	}
+}
+
+// epWatchdog: a window-level scenario runs in fake time and normally takes milliseconds of real time; when a
+// goroutine of panrpc is stuck on a mutex the bubble never becomes idle and the scenario never ends: give up
+// after 15 s of REAL time (the process cannot continue: the bubble's goroutines cannot be unwound)
+func epWatchdog(index int) func() {
+	done := make(chan struct{})
+	go func() {
+		select {
+		case <-done:
+		case <-time.After(15 * time.Second):
+			fmt.Printf("\nEPHANG %d\n", index)
+			os.Exit(7)
+		}
+	}()
+	return func() { close(done) }
 }
 
 // guard runs one workload with a deadline: panrpc-internal deadlocks (goroutines stuck on a mutex) do
